@@ -17,10 +17,18 @@ package redis
 import (
 	"bufio"
 	"bytes"
+	"errors"
 	"io"
 )
 
 const defaultBufferSize = 4096
+
+// maxLineLen limits a line read by ReadBytes (an inline command, a simple
+// string or an error), delimiter included.
+const maxLineLen = 64 * 1024
+
+// ErrLineTooLong is returned by ReadBytes for a line longer than maxLineLen.
+var ErrLineTooLong = errors.New("line too long")
 
 type sliceAlloc struct {
 	allocs int // alloc times from runtime
@@ -192,6 +200,9 @@ func (b *Reader) ReadBytes(delim byte) ([]byte, error) {
 			last = f
 		}
 		size += len(f)
+		if size > maxLineLen {
+			return nil, ErrLineTooLong
+		}
 	}
 	var n int
 	var buf = b.slice.Make(size)
